@@ -895,13 +895,21 @@ func (e *Env) evalQuant(q string, n *ECall) SVal {
 // mentioning i, and returns the offset term of s ("" if none).
 func (e *Env) findSliceOffset(name string, body Expr) (off string) {
 	var base Expr
+	plain := false
 	walkExpr(body, func(x Expr) {
-		if base != nil {
+		if base != nil && plain {
 			return
 		}
 		ix, ok := x.(*EIndex)
 		if !ok {
 			return
+		}
+		isPlain := false
+		if id, ok := ix.I.(*EIdent); ok && id.Name == name {
+			isPlain = true
+		}
+		if base != nil && !isPlain {
+			return // keep the first candidate unless a plain s[i] is found
 		}
 		mentions := false
 		walkExpr(ix.I, func(y Expr) {
@@ -923,6 +931,7 @@ func (e *Env) findSliceOffset(name string, body Expr) (off string) {
 		})
 		if !baseMentions {
 			base = ix.X
+			plain = isPlain
 		}
 	})
 	if base == nil {
